@@ -135,6 +135,24 @@ def number_text_case(text):
             "steps": [{"src": f"(let ([s {s}]) (list (string->number s) (string->number s 16) (string->number s 2) (string->symbol s) (string->list s)))", "class": "noncrash"}]}
 
 
+def numlit_case(c):
+    """a text of the numeric-literal grammar is a number for the compiler's reader and for string->number,
+    of the exactness its spelling says, and what number->string makes of it is a number again"""
+    t = c["text"]
+    ex = "#false" if c["inexact"] else "#true"
+    if c["cplx"]:
+        src = (f"(let ([v (quote {t})] [w (string->number \"{t}\")]) (emit (list (number? v) (number? w) "
+               f"(if (number? v) (number? (string->number (number->string v))) 'not-a-number))))")
+        exp = ["(#true #true #true)"]
+    else:
+        src = (f"(let ([v (quote {t})] [w (string->number \"{t}\")]) (emit (list (number? v) (number? w) "
+               f"(if (number? v) (exact? v) 'not-a-number) (if (and (number? v) (number? w)) (= v w) 'not-a-number) "
+               f"(if (number? v) (equal? v (string->number (number->string v))) 'not-a-number))))")
+        exp = [f"(#true #true {ex} #true #true)"]
+    return {"id": f"nl-{sha(t, 16)}", "fresh": False, "tag": f"numlit|{'cplx' if c['cplx'] else 'real'}|{t}",
+            "steps": [{"src": src, "class": "ok", "emit": exp}]}
+
+
 def mkstr(text):
     return "(list->string (map integer->char (list " + " ".join(str(ord(ch)) for ch in text) + ")))"
 
@@ -314,6 +332,13 @@ def run(tier, seed):
     ecases = [engine_text_case(t) for t in strings + sorted((set(texts) | set(xtexts)) - set(strings) - deep) if "@@" not in t]
     everd = replay_batched(ecases, work, "c12e")
     r.add_cases(ecases, everd, nontrivial=lambda c: len(c["steps"][0]["src"]) > 0)
+
+    # ---- numeric literal grammar (reals with exponents, rectangular complex numbers)
+    res = vlib.run_tlc("Datum", "MC_Datum_numlit.cfg", work, workers=4, timeout=300)
+    r.add_tlc(res)
+    lcases = [numlit_case(c) for c in res["cases"] if c.get("kind") == "numlit"]
+    lverd = replay_batched(lcases, work, "c12l")
+    r.add_cases(lcases, lverd)
 
     # ---- (c) runtime numeric reader (string->number in three radixes) on every text
     ncases = [number_text_case(t) for t in strings if 0 < len(t) <= 4]
